@@ -179,4 +179,196 @@ theorem goodD_remove (c : Codec SSlab β) (hc : RoundTrip c) (T : Nat) (hT : leg
     simp only [hi, if_false]
     refine ⟨goodD_unchanged c T ((a, ctx), s) hg, ?_, ?_, ?_⟩ <;> first | rfl | trivial
 
+/-- `PopIterate` -/
+theorem goodD_pop (c : Codec SSlab β) (hc : RoundTrip c) (T : Nat) (hT : legalThreshold T = true)
+    (x : (Arr × Ctx) × St SSlab β) (hg : GoodD c T x) :
+    GoodD c T (stepD c T x .popIterate) ∧
+    values (stepD c T x .popIterate).1 = specStep (values x.1) .popIterate ∧
+    (stepD c T x .popIterate).1.1.rootID = x.1.1.rootID ∧
+    (stepD c T x .popIterate).1.1.ty = x.1.1.ty := by
+  obtain ⟨⟨a, ctx⟩, s⟩ := x
+  simp only [stepD, stepS, stepA, handed, specStep]
+  obtain ⟨h1, h2, h3, h4⟩ := arr_popIterate_refines a ctx
+  obtain ⟨hcre, hctr⟩ := arr_popIterate_ctx a ctx
+  obtain ⟨E0, heffs, hE1, hE2⟩ := arr_popIterate_eff a ctx hg.inv.standalone
+  have hinv' := arr_popIterate_inv hT a ctx hg.inv
+  obtain ⟨heff, _, _⟩ := C09.pop_releases_all T hT a ctx hg.inv
+  obtain ⟨hR', hnil, _, _, hiff, hnot⟩ := C09R.refs_popIterate T hT a ctx hg.inv hg.refsR
+  generalize hr : a.popIterate ctx = r at *
+  obtain ⟨es, a', ctx'⟩ := r
+  simp only at *
+  have hlog : Log ctx ctx' (E0 ++ [.store a.rootID]) [] := by
+    refine ⟨heffs, by simp [hcre], by omega, ?_⟩
+    intro addr id hm
+    rcases List.mem_append.1 hm with h | h
+    · obtain ⟨j, _, hj⟩ := hE1 _ h; cases hj
+    · simp at h
+  have hnE : C09.newEffects ctx ctx' = E0 ++ [.store a.rootID] := by
+    unfold C09.newEffects; rw [heffs]; exact List.drop_left
+  rw [hnE] at heff
+  have haddr : a'.addr = a.addr := by unfold Arr.addr; rw [h3]
+  have hfoot : ∀ id, lastAction (E0 ++ [.store a.rootID]) id ≠ none →
+      (a.slabAt id).isSome ∨ ctx.ctr < id.idx := by
+    intro id hne
+    left
+    rw [slabAt_isSome, slabIds_eq]
+    rw [lastAction_concat_store] at hne
+    split at hne
+    · rename_i he; subst he; exact List.mem_cons_self
+    · have hrem : ∀ e ∈ E0, ∃ i, e = Eff.remove i := fun e he => by
+        obtain ⟨j, _, rfl⟩ := hE1 e he; exact ⟨j, rfl⟩
+      have h5 := lastAction_only_removes E0 hrem id
+      cases hl : lastAction E0 id with
+      | none => exact absurd hl hne
+      | some b =>
+        cases b with
+        | true => exact absurd hl h5.2
+        | false =>
+          obtain ⟨j, hj, hje⟩ := hE1 _ (h5.1.1 hl)
+          cases hje
+          exact List.mem_cons_of_mem _ hj
+  have hal : AllocCnt a.addr ctx ctx' (E0 ++ [.store a.rootID]) := by
+    unfold AllocCnt
+    rw [hctr]
+    have : nAllocAt a.addr (E0 ++ [.store a.rootID]) = 0 := by
+      unfold nAllocAt
+      rw [List.length_eq_zero_iff, List.filter_eq_nil_iff]
+      intro e he
+      rcases List.mem_append.1 he with h | h
+      · obtain ⟨j, _, rfl⟩ := hE1 _ h; simp [isAllocAt]
+      · simp at h; subst h; simp [isAllocAt]
+    omega
+  have sum : StepSum T a ctx a' ctx' (E0 ++ [.store a.rootID]) [] :=
+    ⟨hlog, heff, hfoot, CreatedOk.nil _ _ _ _ _, hal, by rw [hctr] at hinv' ⊢; exact hinv', haddr⟩
+  refine ⟨goodD_step c hc T a ctx s a' ctx' _ [] _ hg sum hR' (fun _ h => by cases h) ?_ ?_ ?_, ?_, h3, h4⟩
+  · intro id hin
+    exact ⟨by rw [hnil]; exact List.not_mem_nil, hnot id hin⟩
+  · intro id hin
+    exact Or.inl ((hiff id).2 hin)
+  · intro id hin
+    rw [hnil] at hin; cases hin
+  · simp [values, h2]
+
+/-- `SetType` -/
+theorem goodD_setType (c : Codec SSlab β) (hc : RoundTrip c) (T : Nat)
+    (x : (Arr × Ctx) × St SSlab β) (hg : GoodD c T x) (ty : Nat) :
+    GoodD c T (stepD c T x (.setType ty)) ∧
+    values (stepD c T x (.setType ty)).1 = specStep (values x.1) (.setType ty) ∧
+    (stepD c T x (.setType ty)).1.1.rootID = x.1.1.rootID ∧
+    (stepD c T x (.setType ty)).1.1.ty = ty := by
+  obtain ⟨⟨a, ctx⟩, s⟩ := x
+  simp only [stepD, stepS, stepA, handed, specStep]
+  have hst := hg.inv.standalone
+  have hres : a.setType ty ctx = ({ a with ty := ty }, ctx.emit (.store a.rootID)) := by
+    unfold Arr.setType; rw [hst]; rfl
+  rw [hres]
+  have hslabs : ∀ id, id ≠ a.rootID → ({ a with ty := ty } : Arr).slabAt id = a.slabAt id := by
+    intro id hne
+    have hne' : ¬ id = ({ a with ty := ty } : Arr).rootID := hne
+    simp only [Arr.slabAt, hne, hne', if_false]
+  have hsome : ∀ id, (({ a with ty := ty } : Arr).slabAt id).isSome = (a.slabAt id).isSome := by
+    intro id; simp [Arr.slabAt]
+  have hla : ∀ id, lastAction [Eff.store a.rootID] id = if a.rootID = id then some true else none := by
+    intro id
+    have := lastAction_concat_store [] a.rootID id
+    simpa using this
+  have heff : EffectsComplete a { a with ty := ty } [.store a.rootID] (([] : List (SlabID × Elem)).map (·.1)) := by
+    refine ⟨?_, ?_, ?_, ?_⟩
+    · intro id _ hne
+      rw [hla]
+      by_cases h : a.rootID = id
+      · simp [h]
+      · exact absurd (hslabs id (fun e => h e.symm)) hne
+    · intro id h1 h2
+      have h3 := hsome id
+      rw [h1] at h3
+      cases hs : ({ a with ty := ty } : Arr).slabAt id <;> simp_all
+    · intro id h
+      rw [hla] at h
+      split at h
+      · rename_i he; subst he
+        left
+        rw [hsome, slabAt_isSome]
+        exact hdr_id_mem_slabIds a.d a.root
+      · cases h
+    · intro id h
+      rw [hla] at h
+      split at h <;> cases h
+  have hfoot : ∀ id, lastAction [Eff.store a.rootID] id ≠ none →
+      (a.slabAt id).isSome ∨ ctx.ctr < id.idx := by
+    intro id hne
+    rw [hla] at hne
+    split at hne
+    · rename_i he; subst he
+      left; rw [slabAt_isSome]; exact hdr_id_mem_slabIds a.d a.root
+    · exact absurd rfl hne
+  have hinv' : ArrInv T { a with ty := ty } (ctx.emit (.store a.rootID)).ctr := by
+    have := C05.inv_setType T a ctx ty hg.inv
+    rw [hres] at this
+    exact this
+  have hR' : ARefsOk { a with ty := ty } (ctx.emit (.store a.rootID)).ctr := by
+    have := C09R.refs_setType a ctx ty hg.refsR
+    rw [hres] at this
+    exact this
+  have sum : StepSum T a ctx { a with ty := ty } (ctx.emit (.store a.rootID)) [.store a.rootID] [] :=
+    ⟨Log.store ctx a.rootID, heff, hfoot, CreatedOk.nil _ _ _ _ _, AllocCnt.store _ _ _, hinv', rfl⟩
+  refine ⟨goodD_step c hc T a ctx s { a with ty := ty } (ctx.emit (.store a.rootID)) _ [] [] hg sum hR'
+    (fun _ h => by cases h) (fun _ h => by cases h) (fun id h => Or.inr h) (fun id h => Or.inl h),
+    rfl, rfl, rfl⟩
+
+/-- EVERY REQUEST followed by disposal keeps the exact-heap invariant and follows the `List`
+    semantics. -/
+theorem goodD_stepD (c : Codec SSlab β) (hc : RoundTrip c) (T : Nat) (hT : legalThreshold T = true)
+    (x : (Arr × Ctx) × St SSlab β) (hg : GoodD c T x) (op : AOp) (hop : op.Ok) :
+    GoodD c T (stepD c T x op) ∧
+    values (stepD c T x op).1 = specStep (values x.1) op ∧
+    (stepD c T x op).1.1.rootID = x.1.1.rootID ∧
+    (stepD c T x op).1.1.ty = specTy x.1.1.ty [op] := by
+  cases op with
+  | insert i v => exact goodD_insert c hc T hT x hg i v hop
+  | append v =>
+    rw [stepD_append]
+    obtain ⟨h1, h2, h3, h4⟩ := goodD_insert c hc T hT x hg x.1.1.count v hop
+    refine ⟨h1, ?_, h3, h4⟩
+    rw [h2]
+    have hlen := count_eq_length hg.inv
+    simp only [specStep, values_length, hlen, Nat.le_refl, and_true]
+    split
+    · rw [← values_length, List.insertIdx_length_self]
+    · rfl
+  | set i v => exact goodD_set c hc T hT x hg i v hop
+  | remove i => exact goodD_remove c hc T hT x hg i
+  | popIterate => exact goodD_pop c hc T hT x hg
+  | setType ty => exact goodD_setType c hc T x hg ty
+
+/-- a whole history -/
+theorem goodD_runD (c : Codec SSlab β) (hc : RoundTrip c) (T : Nat) (hT : legalThreshold T = true) :
+    ∀ (ops : List AOp) (x : (Arr × Ctx) × St SSlab β), GoodD c T x → (∀ op ∈ ops, op.Ok) →
+    GoodD c T (runD c T x ops) ∧ values (runD c T x ops).1 = specRun (values x.1) ops ∧
+    (runD c T x ops).1.1.rootID = x.1.1.rootID ∧ (runD c T x ops).1.1.ty = specTy x.1.1.ty ops
+  | [], x, hg, _ => ⟨hg, rfl, rfl, rfl⟩
+  | op :: ops, x, hg, hok => by
+    obtain ⟨g1, g2, g3, g4⟩ := goodD_stepD c hc T hT x hg op (hok op (by simp))
+    obtain ⟨r1, r2, r3, r4⟩ := goodD_runD c hc T hT ops (stepD c T x op) g1
+      (fun o ho => hok o (by simp [ho]))
+    refine ⟨r1, ?_, ?_, ?_⟩
+    · show values (runD c T (stepD c T x op) ops).1 = specRun (specStep (values x.1) op) ops
+      rw [r2, g2]
+    · show (runD c T (stepD c T x op) ops).1.1.rootID = _
+      rw [r3, g3]
+    · show (runD c T (stepD c T x op) ops).1.1.ty = _
+      rw [r4, g4, specTy_cons]
+      rfl
+
+/-- `NewArray` on an empty storage satisfies the invariant -/
+theorem goodD_new (c : Codec SSlab β) (hc : RoundTrip c) (T : Nat) (hT : legalThreshold T = true)
+    (addr ty : Nat) (haddr : addr ≠ 0) : GoodD c T (newS c addr ty) := by
+  obtain ⟨hg, _, _, _⟩ := good_new c hc T hT addr ty haddr
+  have hlive : live (newS c addr ty).1 = AList.find? (newS c addr ty).1.2.created := by
+    funext id
+    rfl
+  refine ⟨hg.inv, C09R.refs_new addr ty _, ?_, hg.st, hg.addr, hg.sync, hg.caddr, hg.created_le, ?_⟩
+  · rw [hlive]; exact hg.rep
+  · intro id hid; cases hid
+
 end Atree.E2ED
